@@ -13,7 +13,7 @@ STUB = ["environment (SimEnv)", "action-space sampler", "train_st callback (Stub
 ASSUMPTIONS = ["DQN family: the update gate checked is `step > batch_size` (the gate named in the property's anchors)",
                "an extra env.reset() after the last episode is not a violation"]
 TIERS = {"quick": {"runs": 120}, "thorough": {"runs": 2400}}
-REQUIRED = ["budget_exit", "episode_limit_exit", "resume", "warmup_iterations_observed", "returned_counter_exact", "scheduler_totals_exact", "ucb_argmax_checked", "initial_rounds", "protocol_misuse_rejected", "rollouts_checked", "several_tasks_trained"]
+REQUIRED = ["restart_counter_with_reused_state", "non_identity_task_ids", "budget_exit", "episode_limit_exit", "resume", "warmup_iterations_observed", "returned_counter_exact", "scheduler_totals_exact", "ucb_argmax_checked", "initial_rounds", "protocol_misuse_rejected", "rollouts_checked", "several_tasks_trained"]
 REQUIRED_QUICK = ["budget_exit", "episode_limit_exit", "resume"]
 SHRINK_LISTS = [["env", "script"], ["chain"], ["ops"]]
 SHRINK_INTS = []
@@ -34,7 +34,16 @@ def make_plan(rng, tier, index):
     plan = trainplan.base_plan(rng, PROPERTY, CLAUSES, name, T=rng.choice([10, 16, 24, 36]) if name != "pets" else rng.choice([8, 12]))
     plan["monitor"] = True
     T = plan["chain"][0]["total_timesteps"]
-    mode = rng.choice(["budget", "episodes", "resume", "start_mid", "zero"])
+    mode = rng.choice(["budget", "episodes", "resume", "start_mid", "zero", "reuse_buffer"])
+    if mode == "reuse_buffer" and ad.has_global_step and "learning_starts" in plan["cfg"] and name not in ("mrq",):
+        # a new run from step 0 that re-uses the (already filled) buffer and networks of an earlier run
+        ls = rng.choice([3, 5, 8])
+        plan["cfg"]["learning_starts"] = ls
+        plan["cfg"]["buffer_size"] = max(plan["cfg"].get("buffer_size", 64), 64)
+        T1 = ls + rng.choice([4, 8])
+        plan["chain"] = [{"total_timesteps": T1, "total_episodes": None}, {"total_timesteps": ls + rng.choice([2, 6]), "total_episodes": None, "global_step": 0}]
+        plan["env"]["max_steps"] = 400
+        return plan
     if name == "cmaes":
         plan["chain"][0]["total_episodes"] = plan["cfg"]["total_episodes"]
     elif mode == "episodes" and ad.has_total_episodes:
